@@ -747,6 +747,15 @@ func init() {
 						x := c18Doubles(rr)
 						c18Number(r, strconv.FormatFloat(x, byte("efg"[rr.Intn(3)]), rr.Range(-1, 8), 64))
 					case 2, 3:
+						if rr.Intn(6) == 0 {
+							// |x| * 10^p an integer (odd or even) in [2^52, 2^53): the scaled
+							// value is already integral and adding 0.5 to it is not exact
+							p := rr.Range(-3, 12)
+							m := int64(1)<<52 + int64(rr.U64()%(uint64(1)<<52))
+							x, _ := strconv.ParseFloat(fmt.Sprintf("%s%de%d", rr.Pick("", "-"), m, -p), 64)
+							c18Round(r, x, p, true)
+							break
+						}
 						c18Round(r, c18Doubles(rr), rr.Range(-6, 12), rr.Intn(5) > 0)
 					case 4:
 						c18Math(r, rr)
